@@ -263,6 +263,13 @@ func c16gen(r *rand.Rand, thorough bool, emit func(c, cat string)) {
 		tag++
 		emit(fmt.Sprintf("q=%d u=ok:%d:1:cut%d t=%s", q, tag, at, legs(1)), "ucutN-t1")
 	}
+	// a reply WITHOUT TC that is cut (undecodable): not a truncated reply — it is dropped, no TCP attempt, the
+	// exchange ends with the caller's deadline
+	for _, at := range []int{12, 40, 12 + r.Intn(400)} {
+		q = 1 + r.Intn(1<<20)
+		tag++
+		emit(fmt.Sprintf("q=%d u=ok:%d:0:cut%d t=%s", q, tag, at, legs(1)), "ucutN-notc")
+	}
 	for i := 0; i < 2+n/40; i++ { // a TCP leg that never answers: the caller gets the leg's error at its deadline
 		q = 1 + r.Intn(1<<20)
 		emit(fmt.Sprintf("q=%d u=%s t=hang", q, legs(2)), "u2-thang")
